@@ -251,6 +251,7 @@ class _Impl:
     def __init__(self):
         self.progs: Dict[Any, Any] = {}
         self.envs: Dict[Any, Any] = {}
+        self.rcls: Any = None
         self.log: List[Any] = []
 
     def lib(self):
@@ -283,13 +284,18 @@ class _Impl:
                 env = celpy.Environment(runner_class=rc)
                 self.envs[k] = (env, env.compile(src))
             env, ast_ = self.envs[k]
+            if runner == "R":
+                env.runner_class = self.rcls or L.C7N_Interpreted_Runner
             self.progs[k] = env.program(ast_, functions=self.functions())
         return self.progs[k]
 
     def fresh_programs(self):
-        """a context history is a self-contained case: it starts with program (runner) objects of its own, so whatever a
-        runner keeps between evaluations comes from THIS history (the parsed expressions are kept)"""
+        """a context history is a self-contained case: it starts with program (runner) objects of its own - and with a
+        subclass of `C7N_Interpreted_Runner` of its own - so whatever a runner (or `type(self)`) keeps between evaluations
+        comes from THIS history (the parsed expressions are kept)"""
         self.progs = {}
+        L = self.lib()
+        self.rcls = type("C7N_Interpreted_Runner", (L.C7N_Interpreted_Runner,), {})
 
     def cel(self, src: str, runner: str, act: Dict[str, Any]):
         return self.prog(src, runner).evaluate(act)
